@@ -30,6 +30,7 @@ Variants == {"genuine",        \* produced and sealed by X itself, newer than an
              "dst-rewritten",  \* destination address replaced
              "resealed",       \* produced by another router Z but claiming X as source (sealed with Z's key)
              "replayed",       \* a genuine ping of X delivered again after newer ones
+             "replayed-after-rekey", \* ... and after the victim itself completed a new key exchange with X in between
              "transit",        \* only TTL / flow flags changed (must stay effective)
              "first-genuine",  \* first contact: header key hashes to the (unknown) source address
              "first-badkey"}   \* first contact: header carries a key that does not hash to the source
